@@ -362,7 +362,7 @@ func check(r *ev.Run, store string, db sortedkv.Database, sc *scenario, rc *reco
 				if s == nil || j >= len(sc.w.Parties) {
 					continue
 				}
-				ok, verr := channel.Verify(sc.w.Parties[j].Addr[gen.B], ch.StagingTXV.State, s)
+				ok, verr := channel.Verify(sc.w.Parties[j].Any(), ch.StagingTXV.State, s)
 				r.Count("restored_staging_signatures_verified", 1)
 				if !ok || verr != nil {
 					fail("stale-signature", via, fmt.Sprintf("restored staging signature %d does not verify for the restored staged state (version %d)", j, ch.StagingTXV.State.Version), got)
